@@ -75,7 +75,11 @@ func (ex *Exec) infoOf(n *fsNode, path string) iface {
 	if mode == 0 {
 		mode = 0o644
 	}
-	return iface{t: fsInfoType, v: &fsInfo{name: baseName(path), size: len(n.data), mtime: n.mtime, isDir: n.isDir, mode: mode}}
+	size := len(n.data)
+	if n.vsize > size {
+		size = n.vsize
+	}
+	return iface{t: fsInfoType, v: &fsInfo{name: baseName(path), size: size, mtime: n.mtime, isDir: n.isDir, mode: mode}}
 }
 
 func (ex *Exec) handles() map[*Value]*fsHandle {
@@ -307,13 +311,26 @@ func registerFS(e *Engine) {
 			st.trace = append(st.trace, "FAIL read "+h.path)
 			return 0, ex.ioErr("read", h.path)
 		}
-		if off >= len(h.node.data) {
+		size := len(h.node.data)
+		if h.node.vsize > size {
+			size = h.node.vsize
+		}
+		if off >= size {
 			if len(p) == 0 {
 				return 0, iface{}
 			}
 			return 0, ex.ioGlobalErr("io", "EOF")
 		}
-		n := copy(p, h.node.data[off:])
+		n := 0
+		if off < len(h.node.data) {
+			n = copy(p, h.node.data[off:])
+		}
+		// the sparse remainder reads as zeros
+		z := K(8, 0)
+		for n < len(p) && off+n < size {
+			p[n] = z
+			n++
+		}
 		return n, iface{}
 	}
 	e.reg("(*os.File).Read", func(ex *Exec, fr *frame, args []Value) Value {
